@@ -125,6 +125,14 @@ add("C19", "property-based testing with algebraic oracles (orthogonality to a Le
     "Parseval clause statistical (6% tolerance, measured 2%).",
     "DESIGN.md section 6 C19")
 
+add("C16", "exhaustive enumeration over all odd orders against exact rational arithmetic + property-based differential testing against an independent per-sample Lagrange evaluation; metamorphic (polynomial reproduction, path agreement)",
+    "lagrange_taps is compared with exact Fraction-arithmetic Lagrange weights for every odd order 1..111 (exhaustive in the order); timeshift is compared at every interior "
+    "output with a per-sample evaluation using independently computed weights for generated records, orders, constant shifts (fractional, integer, negative, beyond the "
+    "record, 1e-12 from integers) and per-sample shift vectors (incl. out of range: no exception); polynomials of degree<=order are reproduced; integer shifts are pure "
+    "displacements with end values held; both code paths agree; df_timeshift is checked against timeshift(column, seconds*fs) with selection/suffix/inplace/truncate semantics.",
+    "Interior = whole stencil inside the record (edge behaviour beyond the end-value hold of integer constant shifts is not specified by the property).",
+    "DESIGN.md section 6 C16")
+
 MANIFEST = {
     "version": 1,
     "setup_cmd": "/venv/bin/python -m harness.setup",
